@@ -13,6 +13,7 @@ pub mod c15;
 pub mod c16;
 pub mod c17;
 pub mod c19;
+pub mod c20;
 
 pub fn lab() {
     use crate::world::*;
